@@ -21,6 +21,8 @@ def verdict(prop, provider=None):
         return "error", [str(e)]
     except RecursionError as e:
         return "error", ["recursion: %r" % e]
+    except Exception as e:
+        return "error", ["internal: %r" % e]
     known = {(k["property"], k["rule"], k["construct"], k["key"]) for k in load_known().get("open", [])}
     fresh = [f for f in rep.findings if f.ident() not in known]
     if not fresh and rep.errors:
